@@ -1483,10 +1483,21 @@ def grd6(P, R, L, rule="GRD-6"):
     # on the short edge an UnexpectedEof error is constructed and returned; parsing needs the full edges
     for (sb, tg) in e_short:
         r = pr.reachable(tg)
+        is_eof_kind = lambda body, op: any((o.kind == "const" and isinstance(o.name, str) and "UnexpectedEof" in o.name) or
+                                           (o.kind == "agg" and (o.name or "").endswith("UnexpectedEof")) for o in origins(body, op))
         mk = [c for c in pr.calls() if c.bb in r and c.name == "errors::DBIOError::new" and not pr.is_cleanup(c.bb)]
-        ok = bool(mk) and all(any(o.kind == "const" and isinstance(o.name, str) and "UnexpectedEof" in o.name or
-                                  (o.kind == "agg" and o.name.endswith("UnexpectedEof")) for o in origins(pr, m.args[0])) for m in mk) \
-            and not any(p.bb in r for p in parse)
+        ok = bool(mk) and all(is_eof_kind(pr, m.args[0]) for m in mk)
+        if not mk:
+            # the error may be built by a private helper: every DBIOError::new in it must be given UnexpectedEof
+            for c in pr.calls():
+                h = P.bodies.get(c.t.get("resolved") or "")
+                if c.bb not in r or pr.is_cleanup(c.bb) or h is None or c.t.get("dyn") or not c.t.get("local"):
+                    continue
+                hm = [x for x in h.calls() if not h.is_cleanup(x.bb) and x.name == "errors::DBIOError::new"]
+                if hm:
+                    R.analysed(h)
+                    ok = all(is_eof_kind(h, x.args[0]) for x in hm)
+        ok = ok and not any(p.bb in r for p in parse)
         R.check(rule, READ_PHYS + "|short-read-is-unexpected-eof", ok, pr.where(sb),
                 "a short header/payload read returns an UnexpectedEof error (mapped to end-of-log) and never reaches the parser", "")
     for p_ in parse:
@@ -4054,8 +4065,20 @@ def grd19_level0_inputs_closed(P, R, L, rule="GRD-19"):
     if b is None:
         return R.missing_anchor(rule, fn)
     R.analysed(b)
-    exp = [c for c in b.calls() if not b.is_cleanup(c.bb) and "get_overlapping_compaction_inputs" in (c.name or "")]
     fin = [c for c in b.calls() if not b.is_cleanup(c.bb) and c.name == "compaction::manifest::CompactionManifest::finalize_compaction_inputs"]
+    exp = [c for c in b.calls() if not b.is_cleanup(c.bb) and "get_overlapping_compaction_inputs" in (c.name or "")]
+    if not exp:
+        # the expansion may have been extracted into a private helper (which must both query the overlaps and replace the inputs)
+        for c in b.calls():
+            h = P.bodies.get(c.t.get("resolved") or "")
+            if b.is_cleanup(c.bb) or h is None or c in fin or c.t.get("dyn") or not c.t.get("local"):
+                continue
+            hq = [x for x in h.calls() if not h.is_cleanup(x.bb) and "get_overlapping_compaction_inputs" in (x.name or "")]
+            hput = [x for x in h.calls() if not h.is_cleanup(x.bb) and x.name in ("std::vec::Vec::append", "std::vec::Vec::extend", "std::vec::Vec::push",
+                                                                                   "<std::vec::Vec<T, A> as std::iter::Extend<T>>::extend")]
+            if hq and hput and all(h.must_pass(r, through_nodes=[x.bb for x in hq]) for r in h.return_blocks()):
+                R.analysed(h)
+                exp.append(c)
     # `level != 0` edges
     nonzero = []
     for c in comparisons(b):
@@ -4234,6 +4257,16 @@ def grd21_manifest_cleanup(P, R, L, rule="GRD-21"):
     GNV = "versioning::version_set::VersionSet::get_new_version_from_current"
     rms = [c for c in b.calls() if not b.is_cleanup(c.bb) and (c.declared_name or "").endswith("FileSystem::remove_file")
            and any(o.kind == "call" and (o.name or "").endswith("::get_manifest_file_path") for o in origins(b, c.args[1]))]
+    if not rms:
+        # the clean-up may have been extracted into a private helper
+        for c in b.calls():
+            h = P.bodies.get(c.t.get("resolved") or "")
+            if b.is_cleanup(c.bb) or h is None or c.t.get("dyn") or not c.t.get("local") or c.name == GNV:
+                continue
+            if any(not h.is_cleanup(x.bb) and (x.declared_name or "").endswith("FileSystem::remove_file")
+                   and any(o.kind == "call" and (o.name or "").endswith("::get_manifest_file_path") for o in origins(h, x.args[1])) for x in h.calls()):
+                R.analysed(h)
+                rms.append(c)
     flag_edges = []
     for l in range(len(b.locals)):
         if b.local_ty(l) != "bool":
@@ -4284,7 +4317,19 @@ def fs1_create_file_modes(P, R, L, rule="FS-1"):
     for im in impls:
         b = P.bodies[im]
         R.analysed(b)
-        tests = _bt(b, 3)          # param 3: append
+        flag_param = 3             # param 3: append
+        if "fs_disk" in b.file and not [c for c in b.calls() if not b.is_cleanup(c.bb) and c.name == "std::fs::OpenOptions::append"]:
+            # the OpenOptions may be built by a private helper that receives the flag
+            for c in b.calls():
+                h = P.bodies.get(c.t.get("resolved") or "")
+                if b.is_cleanup(c.bb) or h is None or c.t.get("dyn") or not c.t.get("local"):
+                    continue
+                ks = [i_ + 1 for i_, a in enumerate(c.args) if a["k"] in ("copy", "move") and any(o.kind == "param" and o.name == 3 and not o.path for o in origins(b, a))]
+                if len(ks) == 1 and any(x.name == "std::fs::OpenOptions::append" for x in h.calls()):
+                    R.analysed(h)
+                    b, flag_param = h, ks[0]
+                    break
+        tests = _bt(b, flag_param)
         t_edges = [(t.bb, x) for t in tests for x in t.ok]
         f_edges = [(t.bb, x) for t in tests for x in t.err]
         oks = _ok_blocks(b) or b.return_blocks()
@@ -4299,10 +4344,10 @@ def fs1_create_file_modes(P, R, L, rule="FS-1"):
                     return a.get("val") == "1"
                 os_ = origins(b, a)
                 if not negated:
-                    return bool(os_) and all(o.kind == "param" and o.name == 3 and not o.path for o in os_)
+                    return bool(os_) and all(o.kind == "param" and o.name == flag_param and not o.path for o in os_)
                 # truncate(!append)
                 return bool(os_) and all(o.kind == "unop" and str(o.name) == "Not" and o.extra and all(
-                    x.kind == "param" and x.name == 3 for x in origins(b, o.extra[1]["rv"]["ops"][0])) for o in os_)
+                    x.kind == "param" and x.name == flag_param for x in origins(b, o.extra[1]["rv"]["ops"][0])) for o in os_)
             ok = bool(ap) and bool(tr) and all(flag_arg(c, False) for c in ap) and all(flag_arg(c, True) for c in tr)
             # append(true) only on the append edge (or append(append)); truncate(true) only on the other edge
             for c in ap:
@@ -4526,7 +4571,22 @@ def pair15_charge_same_version(P, R, L, rule="PAIR-15"):
         return R.missing_anchor(rule, GET)
     R.analysed(b)
     us = [c for c in b.calls() if not b.is_cleanup(c.bb) and c.name == "versioning::version::Version::update_stats"]
+    via_helper = []
     if not us:
+        # the charge may be applied by a private helper that receives the version handle
+        for c in b.calls():
+            h = P.bodies.get(c.t.get("resolved") or "")
+            if b.is_cleanup(c.bb) or h is None or c.t.get("dyn") or not c.t.get("local"):
+                continue
+            hu = [x for x in h.calls() if not h.is_cleanup(x.bb) and x.name == "versioning::version::Version::update_stats"]
+            for x in hu:
+                ks = {o.name for o in origins(h, x.args[0]) if o.kind == "param"}
+                if len(ks) == 1 and len(origins(h, x.args[0])) == len([o for o in origins(h, x.args[0]) if o.kind == "param"]):
+                    k = ks.pop()
+                    if k - 1 < len(c.args):
+                        R.analysed(h)
+                        via_helper.append((c, c.args[k - 1]))
+    if not us and not via_helper:
         return R.check(rule, GET + "|anchors", False, where(b), "DB::get applies the seek charge (update_stats)", "no update_stats call")
     # the version handle handed to the lookup closure
     handed = set()
@@ -4540,8 +4600,8 @@ def pair15_charge_same_version(P, R, L, rule="PAIR-15"):
                             handed.add(po.site.bb)
     ok = bool(handed)
     det = []
-    for c in us:
-        sites = {o.site.bb for o in origins(b, c.args[0]) if o.kind == "call" and o.site is not None and o.name == CUR_VERSION}
+    for c, recv in [(c, c.args[0]) for c in us] + via_helper:
+        sites = {o.site.bb for o in origins(b, recv) if o.kind == "call" and o.site is not None and o.name == CUR_VERSION}
         if not sites or not sites <= handed:
             ok = False
             det.append("line %s: update_stats is applied to a version loaded at bb%s, the lookup used the one loaded at bb%s" % (c.line, sorted(sites), sorted(handed)))
